@@ -937,6 +937,13 @@ func (env *specEnv) evalCall(n *ast.CallExpr) Value {
 			return c.Quant("forall", bound, c.Implies(c.And(guards...), body), autoPatterns(body, bound))
 		}
 		return c.Quant("exists", bound, c.And(c.And(guards...), body), nil)
+	case "closed_":
+		// the channel has been closed (ghost bit maintained by close())
+		ch, ok := env.eval(n.Args[0]).(*Term)
+		if !ok {
+			return PoisonV{"closed_ argument"}
+		}
+		return c.Select(e.heapGet(env.state(), "chan#closed", Array(Int, Bool)), ch)
 	case "fresh_":
 		// allocated after the old state (callee-fresh)
 		var r *Term
@@ -978,7 +985,7 @@ func (env *specEnv) evalCall(n *ast.CallExpr) Value {
 		default:
 			return PoisonV{"existing_ argument"}
 		}
-		return c.Lt(e.rootOf(r), env.state().next)
+		return c.Or(c.Eq(r, c.IntC(0)), c.Lt(e.rootOf(r), env.state().next))
 	case "samearr_":
 		a, ok1 := env.eval(n.Args[0]).(SliceV)
 		b, ok2 := env.eval(n.Args[1]).(SliceV)
@@ -1543,7 +1550,12 @@ func (x *exec) havocModifies(s, old *State, cl *Clause, blk *Block, fn *ssa.Func
 		if item == "*" {
 			e.noteWrite(s, "*", wtarget{kind: wAll})
 			for _, key := range sortedSortKeys(e.heapSorts) {
+				prev := e.heapGet(s, key, e.heapSorts[key])
 				s.heap[key] = c.Fresh("mod.H{"+key+"}", e.heapSorts[key])
+				if key == "chan#closed" {
+					cv := c.BoundVar("c", Int)
+					s.assume(c, c.Quant("forall", []*Term{cv}, c.Implies(c.Select(prev, cv), c.Select(s.heap[key], cv)), nil))
+				}
 			}
 			e.addHavoc(s, "", true)
 			continue
@@ -1555,7 +1567,13 @@ func (x *exec) havocModifies(s, old *State, cl *Clause, blk *Block, fn *ssa.Func
 				so := e.heapSorts[k]
 				if keyMatches(key, k) {
 					e.noteWrite(s, k, wtarget{kind: wAll})
+					prev := e.heapGet(s, k, so)
 					s.heap[k] = c.Fresh("mod.H{"+k+"}", so)
+					if k == "chan#closed" {
+						// a closed channel never reopens, whatever the callee does
+						cv := c.BoundVar("c", Int)
+						s.assume(c, c.Quant("forall", []*Term{cv}, c.Implies(c.Select(prev, cv), c.Select(s.heap[k], cv)), nil))
+					}
 				}
 			}
 			e.addHavoc(s, key, false)
